@@ -148,7 +148,8 @@ def run_case(case, seed, st):
     # (b) commensurate q != 0
     k = 1
     worst_comm = 0.0
-    for rr in reps:
+    nrep = sum(len(rr) for rr in reps)
+    for ic, rr in enumerate(reps):
         errs = []
         for r in rr:
             errs.append(np.abs(D1[k] - D0[k]).max() / scale)
@@ -159,6 +160,13 @@ def run_case(case, seed, st):
         # the truncated reciprocal sum is periodic in q only to its own precision (measured: 1e-4 between neighbouring
         # representatives, <= 5e-6 at a shortest one for the default cutoff), which bounds what "unchanged" can mean
         tol = 1e-12 if case["method"] == "wang" else 2e-5
+        if case["method"] == "gonze":
+            # ... and that precision depends on the data (a dielectric tensor with an eigenvalue near 1 makes the sum decay slowly:
+            # 2.4e-4 at the zone boundary).  It is measured on phonopy's own output: D_noNAC is exactly periodic, so the change of
+            # (D - D_noNAC) between this point and its copy shifted by a reciprocal lattice vector is the non-periodicity itself.
+            ksh = 1 + nrep + ic
+            defect = np.abs((D1[ksh] - D0[ksh]) - (D1[k - 1] - D0[k - 1])).max() / scale
+            tol = max(tol, 2.0 * defect)
         if e > tol:
             return fail("commensurate-q-changed", "D at commensurate q=%s changes by %.3g (rel) when NAC is switched on" % (rr[0].round(4).tolist(), e), float(e), aniso)
     if case["method"] == "wang":
